@@ -403,7 +403,12 @@ def run_check(P, tier, seed, replay=None):
     if ok_driver:
         mi = []
         mi_err = {}
+        dropped_keys = {id(c) for c, o in zip(cases, impl_outs) if isinstance(o, dict) and "dropped" in o}
         for k, c in enumerate(model_inputs):
+            if id(c) in dropped_keys:
+                # the harness declined to run the real code on this case (reason counted below): not compared
+                mi.append({"op": "none"})
+                continue
             try:
                 mi.append(getattr(P, "model_input", lambda c: c)(c))
             except Exception as e:
